@@ -338,3 +338,57 @@ func ZZ_C06_pool_numbers() {
 		zz.Assert(exy == (a.(float64) == b.(float64)), "C06.pool/float-float")
 	}
 }
+
+// ZZ_C06_containers_more: structural comparison over more shapes - typed
+// slices, maps with two keys or different key sets, structs, containers
+// nested in containers, pointers to equal values - with the laws (symmetry,
+// != is the negation, membership and switch agree) on each pair.
+func ZZ_C06_containers_more() {
+	x1, x2, y1, y2 := zz.Int64(), zz.Int64(), zz.Int64(), zz.Int64()
+	both := zz.And(x1 == y1, x2 == y2)
+	var a, b interface{}
+	var want bool
+	name := ""
+	switch zz.Choose(12) {
+	case 0:
+		name, a, b, want = "typed-slice", []int64{x1, x2}, []int64{y1, y2}, both
+	case 1:
+		name, a, b, want = "typed-slice-different-length", []int64{x1, x2}, []int64{y1}, false
+	case 2:
+		name, a, b, want = "map-two-keys", map[interface{}]interface{}{"k": x1, "j": x2}, map[interface{}]interface{}{"j": y2, "k": y1}, both
+	case 3:
+		name, a, b, want = "map-different-key-sets", map[interface{}]interface{}{"k": x1, "j": x2}, map[interface{}]interface{}{"k": x1, "z": x2}, false
+	case 4:
+		name, a, b, want = "map-subset", map[interface{}]interface{}{"k": x1}, map[interface{}]interface{}{"k": x1, "j": x2}, false
+	case 5:
+		name, a, b, want = "typed-map", map[string]int64{"k": x1}, map[string]int64{"k": y1}, x1 == y1
+	case 6:
+		name, a, b, want = "struct", zzPair{A: x1, B: []int64{x2}}, zzPair{A: y1, B: []int64{y2}}, both
+	case 7:
+		name, a, b, want = "map-in-slice", []interface{}{map[interface{}]interface{}{"k": x1}, x2}, []interface{}{map[interface{}]interface{}{"k": y1}, y2}, both
+	case 8:
+		name, a, b, want = "slice-in-map", map[interface{}]interface{}{"k": []interface{}{x1, x2}}, map[interface{}]interface{}{"k": []interface{}{y1, y2}}, both
+	case 9:
+		name, a, b, want = "slice-in-slice-in-slice", []interface{}{[]interface{}{[]interface{}{x1}, x2}}, []interface{}{[]interface{}{[]interface{}{y1}, y2}}, both
+	case 10:
+		p, q := x1, y1
+		name, a, b, want = "pointers-to-values", &p, &q, x1 == y1
+	case 11:
+		name, a, b, want = "empty-containers", []interface{}{}, []interface{}{}, true
+	}
+	x, y := zzVal{v: a}, zzVal{v: b}
+	exy, ok1 := zzCmp("==", x, y)
+	eyx, ok2 := zzCmp("==", y, x)
+	nxy, ok3 := zzCmp("!=", x, y)
+	zz.Assert(ok1 && ok2 && ok3, "C06.containers/"+name+"/total")
+	if !(ok1 && ok2 && ok3) {
+		return
+	}
+	zz.Assert(exy == want, "C06.containers/"+name+"/structural")
+	zz.Assert(exy == eyx, "C06.containers/"+name+"/symmetric")
+	zz.Assert(nxy == zz.Not(exy), "C06.containers/"+name+"/neq-is-negation")
+	in, ok4 := zzIn(x, y)
+	zz.Assert(ok4 && in == exy, "C06.containers/"+name+"/in-agrees")
+	sw, ok5 := zzSwitch(x, y)
+	zz.Assert(ok5 && sw == exy, "C06.containers/"+name+"/switch-agrees")
+}
